@@ -205,6 +205,93 @@ theorem C10_holds_meaning (me : Bytes) (evs : List Ev) (tail : Tail) (ps : List 
   obtain ⟨⟨⟨h1, h2⟩, -⟩, -⟩ := h
   exact ⟨h1, checkReads_prefix _ _ _ _ _ h2⟩
 
+/-- **Both directions of one connection (main)**: the forward phase is `C10_stream_main`; then the
+receiving stream B writes (any events `rvEvs`, well-formed for the tunnel) on the very stream object it has
+read from, and the sending stream A reads on the one it has written to.  For every tracker, chunking,
+ending of the forward direction, read sizes of both phases and whether B had half-closed before reading:
+B's writes are accepted iff it had not half-closed, A is given exactly B's bytes up to B's first
+close/half-close (nothing but end-of-stream if B had half-closed first), then end-of-stream for ever;
+reading leaves a stream's write half untouched and writing its read half. -/
+theorem C10_duplex_main (trk : Tracker) (me : Bytes) (evs rvEvs : List Ev)
+    (hwf : ∀ e ∈ evs, evWF me e = true) (hwr : ∀ e ∈ rvEvs, evWF me e = true)
+    (cut : Bytes → List Bytes) (hcut : ∀ b, (cut b).flatten = b) (tail : Tail) (rw : Bool) (ps rps : List Nat) :
+    holdsDuplex me evs tail rw ps rvEvs rps (runDuplex trk me evs cut tail rw ps rvEvs rps) = true := by
+  -- A writes
+  obtain ⟨fsA, a1, a2, a3, a4, a5, -⟩ :=
+    runWriter_open me (FS.init (tunnelIDFromString me) ⟨[], .eof⟩) evs rfl rfl hwf
+  have aF := runWriter_fields (FS.init (tunnelIDFromString me) ⟨[], .eof⟩) evs
+  generalize hA : runWriter (FS.init (tunnelIDFromString me) ⟨[], .eof⟩) evs = A at a1 a2 a4 aF
+  simp only [FS.init, List.nil_append] at a1 a2 aF hA
+  -- B before reading
+  generalize hb1 : (if rw = true then (FS.init (tunnelIDFromString me) ⟨cut A.2.out, tail⟩).closeWrite
+      else FS.init (tunnelIDFromString me) ⟨cut A.2.out, tail⟩) = b1
+  have hb1f : b1.tunnelID = tunnelIDFromString me ∧ b1.conn = ⟨cut A.2.out, tail⟩ ∧ b1.readEOF = false ∧
+      b1.readBuf = [] ∧ b1.readOff = 0 ∧ b1.broken = false ∧ b1.writeEOF = rw ∧
+      b1.out = (if rw then encode ⟨tunnelIDFromString me, crossnode.FrameTypeEOF, []⟩ else []) := by
+    subst hb1
+    cases rw
+    · simp [FS.init]
+    · simp [FS.init, FS.closeWrite, closeWith_open]
+  obtain ⟨b_id, b_conn, b_re, b_buf, b_off, b_br, b_we, b_out⟩ := hb1f
+  have hinvB : Inv b1 fsA tail := ⟨by rw [b_conn]; simp only [Src.flat, hcut]; exact a1, by rw [b_conn], a3, b_re⟩
+  have hfuelB : fsA.length < A.2.out.length + 1 := by
+    rw [a1]; exact Nat.lt_succ_of_le (encodeAll_length_ge fsA)
+  have hB := readLoop_checks trk tail (A.2.out.length + 1) ps b1 fsA hinvB hfuelB
+    ((expected me evs).2 || tail == .eof) (by rw [b_id, a5])
+  have hpB : pend b1 fsA = (expected me evs).1 := by simp [pend, b_buf, b_off, b_id, a5]
+  rw [hpB, b_br] at hB
+  have bF := readLoop_fields trk (A.2.out.length + 1) b1 ps
+  generalize hBR : readLoop trk (A.2.out.length + 1) b1 ps = BR at *
+  obtain ⟨f_id, f_we, f_out⟩ := bF
+  rw [b_id] at f_id
+  rw [b_we] at f_we
+  rw [b_out] at f_out
+  -- B writes: the frames on the way back, what A must be given, B's answers
+  have hBW : ∃ fs', (runWriter BR.2 rvEvs).2.out = encodeAll fs' ∧ (∀ f ∈ fs', f.WF) ∧
+      (runWriter BR.2 rvEvs).2.broken = BR.2.broken ∧
+      (runWriter BR.2 rvEvs).1 = expectedWrites (!rw) rvEvs ∧
+      deliver (tunnelIDFromString me) fs' = (if rw then ([], true) else expected me rvEvs) := by
+    cases rw
+    · obtain ⟨fs, w1, w2, w3, w4, w5, -⟩ := runWriter_open me BR.2 rvEvs f_we f_id hwr
+      refine ⟨fs, ?_, w3, w2, w4, w5⟩
+      rw [w1, f_out]; simp
+    · obtain ⟨fs, w1, w2, w3, -⟩ := runWriter_closed me BR.2 rvEvs f_we hwr
+      refine ⟨⟨tunnelIDFromString me, crossnode.FrameTypeEOF, []⟩ :: fs, ?_, ?_, ?_, w3, ?_⟩
+      · rw [w1]; simp only [f_out, if_true, encodeAll_cons]
+      · intro f hf
+        rcases List.mem_cons.mp hf with hf | hf
+        · subst hf; exact ⟨tunnelIDFromString_length me, eof_lt, Nat.zero_le _⟩
+        · exact w2 f hf
+      · rw [w1]
+      · simp [deliver, isTerminator, Ne.symm data_ne_eof]
+  obtain ⟨fsB, w1, w2, w3, w4, w5⟩ := hBW
+  generalize hBW' : runWriter BR.2 rvEvs = BW at *
+  -- A reads
+  obtain ⟨g_id, -, g_re, g_buf, g_off⟩ := aF
+  have hinvA : Inv ({ A.2 with conn := ⟨cut BW.2.out, .eof⟩ }) fsB .eof :=
+    ⟨by simp only [Src.flat, hcut]; exact w1, rfl, w2, g_re⟩
+  have hfuelA : fsB.length < BW.2.out.length + 1 := by
+    rw [w1]; exact Nat.lt_succ_of_le (encodeAll_length_ge fsB)
+  have hAr := readLoop_checks none .eof (BW.2.out.length + 1) rps _ fsB hinvA hfuelA true (by simp)
+  have hpA : pend ({ A.2 with conn := ⟨cut BW.2.out, .eof⟩ }) fsB = (if rw then [] else (expected me rvEvs).1) := by
+    simp only [pend, g_buf, g_off, g_id, w5, List.drop_nil, List.nil_append]
+    cases rw <;> rfl
+  rw [hpA] at hAr
+  obtain ⟨r1, r2⟩ := hAr
+  have r2' := r2 rfl
+  dsimp only at r1 r2'
+  rw [a2] at r2'
+  simp only [Bool.not_true, a2] at r1
+  obtain ⟨q1, q2⟩ := hB
+  -- assemble
+  simp only [FS.init] at hb1
+  unfold holdsDuplex runDuplex
+  simp only [FS.init, hA, hb1, hBR, hBW', holdsStream, a4, q1, a2, w4, r1, r2', w3, beq_self_eq_true,
+    Bool.true_and, Bool.and_true, Bool.not_false]
+  cases he : ((expected me evs).2 || tail == Tail.eof) with
+  | false => simp
+  | true => simp [q2 he]
+
 /-- **Stream on a pooled connection**: whatever frames `residual` the previous tunnel left on the idle
 connection (any frames at all, ours-looking ones included), whatever the tracker says: `Get` hands out
 the idle connection only if nothing is pending on it, and the scenario of OUR tunnel that then runs on
